@@ -179,14 +179,27 @@ def run(ctx: Context) -> None:
         for m in ("request", "stream"):
             f = N.func("interfaces", f"AsyncRequestInterface.{m}")
             calls = [c for c in own_nodes(f.node) if isinstance(c, ast.Call) and norm(c.func) == "include_request_headers"]
-            ok = len(calls) == 1 and len(calls[0].args) == 1 and {k.arg: norm(k.value) for k in calls[0].keywords} == {"url": "url", "content": "content"}
+            def src1(e: ast.AST, at: ast.AST) -> list[str]:
+                """where the value comes from, one step back (the locals may re-use the parameter names or have names of their own)"""
+                if isinstance(e, ast.Call):
+                    return [norm(e)]
+                return sorted({norm(a) for a in ctx.prov.expand(e, f, at, depth=1)})
+            URLSRC = ["enforce_url(url,name='url')"]
+            ok = len(calls) == 1 and len(calls[0].args) == 1 and sorted(k.arg for k in calls[0].keywords) == ["content", "url"] and \
+                all((k.arg == "url" and src1(k.value, calls[0]) == URLSRC) or (k.arg == "content" and norm(k.value) == "content") for k in calls[0].keywords)
             if ok:
                 # the list handed over is the fresh one made by enforce_headers (directly, or through a local of any name)
                 a0 = calls[0].args[0]
                 src = [norm(a0)] if isinstance(a0, ast.Call) else [norm(a) for a in ctx.prov.expand(a0, f, calls[0], depth=1)]
                 ok = src == ["enforce_headers(headers,name='headers')"]
             rq = [c for c in own_nodes(f.node) if isinstance(c, ast.Call) and norm(c.func) == "Request"]
-            okq = len(rq) == 1 and {k.arg: norm(k.value) for k in rq[0].keywords} == {"method": "method", "url": "url", "headers": "headers", "content": "content", "extensions": "extensions"}
+            okq = len(rq) == 1 and sorted(k.arg for k in rq[0].keywords) == ["content", "extensions", "headers", "method", "url"]
+            if okq:
+                kv = {k.arg: k.value for k in rq[0].keywords}
+                hsrc = src1(kv["headers"], rq[0])
+                okq = src1(kv["method"], rq[0]) == ["enforce_bytes(method,name='method')"] and src1(kv["url"], rq[0]) == URLSRC and norm(kv["content"]) == "content" \
+                    and norm(kv["extensions"]) == "extensions" and len(hsrc) == 1 and hsrc[0].startswith("include_request_headers(") and len(calls) == 1 and \
+                    hsrc[0] == norm(calls[0])
             rep.ob("C03.R6", fkey(tree, f, "request-assembly"), ok and okq, where(f), "the request is assembled from the enforced arguments with the default headers included")
 
 
